@@ -1,20 +1,26 @@
-//! Monitored execution of decode cases.
+//! Monitored execution of decode cases in forked child processes.
 //!
-//! Cases run on a dedicated thread. Around each decode: `catch_unwind` (monitor 1), the
-//! counting allocator (monitor 2). If the decoder asks for more than the allocator ceiling the
-//! thread is parked for ever by the allocator; the supervisor records the case as a runaway
-//! allocation and continues the remaining cases on a fresh thread. A process-wide watchdog
-//! (monitor 3) aborts the process when no case completes for `WATCHDOG_S` seconds, after
-//! printing the case in flight; with `worker_death_is_violation` the batch runner turns that
-//! into a `process-death` violation. It never fires on a healthy tree (a case takes < 10 ms).
-use std::cell::RefCell;
+//! A batch of cases is executed by a child forked from the worker (copy-on-write: the honest
+//! value set and the decoder closures are simply there). Around each decode: `catch_unwind`
+//! (monitor 1) and the counting allocator (monitor 2). The child streams one record per finished
+//! case through a pipe, so whatever happens to it the parent knows the case in flight:
+//!  * a request above the allocator ceiling: the allocator writes a record and `_exit`s the
+//!    child (a real process would abort in `handle_alloc_error`) -> `Outcome::Runaway`;
+//!  * the child dies (abort, stack overflow, SIGSEGV ...) -> `Outcome::Died`;
+//!  * no record for `WATCHDOG_S` seconds (monitor 3) -> the child is killed -> `Outcome::Hung`.
+//! In each case the parent forks again for the remaining cases. Nothing leaks into the worker.
+//! The time-out is the only wall-clock value; it influences results only when a decoder really
+//! does not return (a case takes < 10 ms; the limit is 120 s).
+use std::cell::{Cell, RefCell};
 use std::panic::AssertUnwindSafe;
-use std::sync::atomic::{AtomicU64, Ordering};
-use std::sync::{Arc, Mutex};
+use std::sync::Arc;
+use std::sync::atomic::{AtomicBool, Ordering};
 
-use crate::alloc::{self, AllocStats, SUPERVISION, SUPERVISION_CV};
+use crate::alloc::{self, AllocStats};
 
-pub const WATCHDOG_S: u64 = 120;
+pub const WATCHDOG_S: i32 = 120;
+/// once a decoder has been seen hanging in this process, later cases get a short limit
+const WATCHDOG_AFTER_HANG_S: i32 = 10;
 
 /// What a decoder closure returns: `Ok(equal_to_the_honest_value)` or the error text.
 pub type Dec = Result<bool, String>;
@@ -22,11 +28,26 @@ pub type DecFn = Arc<dyn Fn(&[u8]) -> Dec + Send + Sync>;
 
 #[derive(Clone, Debug)]
 pub enum Outcome {
-    Ok { equal: bool },
+    Ok {
+        equal: bool,
+    },
     Err(String),
-    Panic { location: String, message: String },
+    Panic {
+        location: String,
+        message: String,
+    },
     /// one request above the allocator ceiling (bytes)
-    Runaway { bytes: usize },
+    Runaway {
+        bytes: usize,
+    },
+    /// the process executing the decode died (how)
+    Died {
+        how: String,
+    },
+    /// the decode did not return within the watchdog limit (seconds)
+    Hung {
+        seconds: i32,
+    },
 }
 
 #[derive(Clone, Debug)]
@@ -38,27 +59,17 @@ pub struct Obs {
 pub struct Job {
     pub dec: DecFn,
     pub input: Vec<u8>,
-    /// short description printed by the watchdog if the case never returns
-    pub label: String,
 }
 
 thread_local! {
     static LAST_PANIC: RefCell<Option<(String, String)>> = const { RefCell::new(None) };
+    static IN_DECODE: Cell<bool> = const { Cell::new(false) };
 }
 
-static PROGRESS_STAMP: AtomicU64 = AtomicU64::new(0);
-static IN_FLIGHT: Mutex<Option<String>> = Mutex::new(None);
-static BUSY: AtomicU64 = AtomicU64::new(0);
+static HANG_SEEN: AtomicBool = AtomicBool::new(false);
 
-fn now_s() -> u64 {
-    std::time::SystemTime::now()
-        .duration_since(std::time::UNIX_EPOCH)
-        .map(|d| d.as_secs())
-        .unwrap_or(0)
-}
-
-/// Install the panic hook (records location + message per thread, prints nothing) and start
-/// the watchdog thread. Call once at process start.
+/// Install the panic hook: inside a monitored decode it records location + message and prints
+/// nothing; anywhere else it is a panic of the harness itself and is printed.
 pub fn install() {
     std::panic::set_hook(Box::new(|info| {
         alloc::pause();
@@ -73,43 +84,22 @@ pub fn install() {
         } else {
             "<non-string panic payload>".into()
         };
-        if std::thread::current().name() != Some("decode") {
-            // a panic of the harness itself: never swallow it
+        if !IN_DECODE.try_with(|c| c.get()).unwrap_or(false) {
             eprintln!("HARNESS PANIC at {location}: {message}");
         }
         let _ = LAST_PANIC.try_with(|c| *c.borrow_mut() = Some((location, message)));
     }));
-    PROGRESS_STAMP.store(now_s(), Ordering::SeqCst);
-    let _ = std::thread::Builder::new().name("watchdog".into()).spawn(|| {
-        loop {
-            std::thread::sleep(std::time::Duration::from_secs(2));
-            if BUSY.load(Ordering::SeqCst) == 0 {
-                continue;
-            }
-            let last = PROGRESS_STAMP.load(Ordering::SeqCst);
-            if now_s().saturating_sub(last) > WATCHDOG_S {
-                let what = IN_FLIGHT.lock().map(|g| g.clone()).unwrap_or(None);
-                eprintln!(
-                    "WATCHDOG: no decode case completed for {WATCHDOG_S}s; case in flight: {}",
-                    what.unwrap_or_else(|| "<none>".into())
-                );
-                std::process::abort();
-            }
-        }
-    });
 }
 
 fn run_one(job: &Job) -> Obs {
-    if let Ok(mut g) = IN_FLIGHT.lock() {
-        *g = Some(job.label.clone());
-    }
     LAST_PANIC.with(|c| *c.borrow_mut() = None);
     let dec = job.dec.clone();
     let input: &[u8] = &job.input;
+    IN_DECODE.with(|c| c.set(true));
     alloc::begin();
     let r = std::panic::catch_unwind(AssertUnwindSafe(|| dec(input)));
     let stats = alloc::end();
-    PROGRESS_STAMP.store(now_s(), Ordering::Relaxed);
+    IN_DECODE.with(|c| c.set(false));
     let outcome = match r {
         Ok(Ok(equal)) => Outcome::Ok { equal },
         Ok(Err(e)) => Outcome::Err(e),
@@ -123,57 +113,211 @@ fn run_one(job: &Job) -> Obs {
     Obs { outcome, stats }
 }
 
-/// Execute all jobs, in order, under the monitors. Deterministic: the result list is a pure
-/// function of the jobs.
+fn clean(s: &str) -> String {
+    s.replace(['\t', '\n', '\r'], " ")
+}
+
+fn encode(obs: &Obs) -> String {
+    let s = &obs.stats;
+    let head = format!("{}\t{}\t{}", s.max_request, s.peak_live, s.requests);
+    match &obs.outcome {
+        Outcome::Ok { equal } => format!("K\t{head}\t{}\n", *equal as u8),
+        Outcome::Err(e) => format!("E\t{head}\t{}\n", clean(e)),
+        Outcome::Panic { location, message } => {
+            format!("P\t{head}\t{}\t{}\n", clean(location), clean(message))
+        }
+        // never produced by the child's normal path
+        Outcome::Runaway { bytes } => format!("R\t{bytes}\n"),
+        Outcome::Died { .. } | Outcome::Hung { .. } => String::new(),
+    }
+}
+
+fn decode_record(line: &str) -> Option<Obs> {
+    let f: Vec<&str> = line.split('\t').collect();
+    if f.first() == Some(&"R") {
+        let bytes: usize = f.get(1)?.parse().ok()?;
+        return Some(Obs {
+            outcome: Outcome::Runaway { bytes },
+            stats: AllocStats {
+                max_request: bytes,
+                peak_live: 0,
+                requests: 0,
+            },
+        });
+    }
+    let stats = AllocStats {
+        max_request: f.get(1)?.parse().ok()?,
+        peak_live: f.get(2)?.parse().ok()?,
+        requests: f.get(3)?.parse().ok()?,
+    };
+    let outcome = match *f.first()? {
+        "K" => Outcome::Ok {
+            equal: *f.get(4)? == "1",
+        },
+        "E" => Outcome::Err(f.get(4)?.to_string()),
+        "P" => Outcome::Panic {
+            location: f.get(4)?.to_string(),
+            message: f.get(5)?.to_string(),
+        },
+        _ => return None,
+    };
+    Some(Obs { outcome, stats })
+}
+
+fn write_all(fd: i32, mut data: &[u8]) {
+    while !data.is_empty() {
+        let n = unsafe { libc::write(fd, data.as_ptr() as *const libc::c_void, data.len()) };
+        if n < 0 {
+            if std::io::Error::last_os_error().kind() == std::io::ErrorKind::Interrupted {
+                continue;
+            }
+            unsafe { libc::_exit(3) };
+        }
+        data = &data[n as usize..];
+    }
+}
+
+fn describe_status(status: i32) -> String {
+    if libc::WIFSIGNALED(status) {
+        let sig = libc::WTERMSIG(status);
+        let name = match sig {
+            libc::SIGABRT => "SIGABRT (abort: failed allocation, double panic or explicit abort)",
+            libc::SIGSEGV => "SIGSEGV (stack overflow or invalid memory access)",
+            libc::SIGBUS => "SIGBUS",
+            libc::SIGILL => "SIGILL",
+            libc::SIGFPE => "SIGFPE",
+            libc::SIGKILL => "SIGKILL (killed, e.g. by the OOM killer)",
+            _ => "signal",
+        };
+        format!("killed by signal {sig} {name}")
+    } else if libc::WIFEXITED(status) {
+        format!("exited with status {}", libc::WEXITSTATUS(status))
+    } else {
+        format!("wait status {status}")
+    }
+}
+
+fn harness_fail(msg: &str) -> ! {
+    eprintln!("HARNESS-ERROR: {msg}: {}", std::io::Error::last_os_error());
+    std::process::exit(2)
+}
+
+/// Execute all jobs, in order, under the monitors. The result list is a pure function of the
+/// jobs (see the module comment for the one exception). It is shorter than the job list only
+/// when a case hung: that case is then the last element.
 pub fn run_jobs(jobs: Vec<Job>) -> Vec<Obs> {
-    let jobs = Arc::new(jobs);
-    let results: Arc<Mutex<Vec<Obs>>> = Arc::new(Mutex::new(Vec::with_capacity(jobs.len())));
-    BUSY.fetch_add(1, Ordering::SeqCst);
-    PROGRESS_STAMP.store(now_s(), Ordering::SeqCst);
-    loop {
-        let start = results.lock().unwrap().len();
-        if start >= jobs.len() {
+    let mut results: Vec<Obs> = Vec::with_capacity(jobs.len());
+    while results.len() < jobs.len() {
+        let start = results.len();
+        let mut fds = [0i32; 2];
+        if unsafe { libc::pipe(fds.as_mut_ptr()) } != 0 {
+            harness_fail("pipe");
+        }
+        let pid = unsafe { libc::fork() };
+        if pid < 0 {
+            harness_fail("fork");
+        }
+        if pid == 0 {
+            // ---- child: decode, stream records, never return
+            unsafe { libc::close(fds[0]) };
+            alloc::CHILD_FD.store(fds[1], Ordering::SeqCst);
+            for job in jobs.iter().skip(start) {
+                let obs = run_one(job);
+                write_all(fds[1], encode(&obs).as_bytes());
+            }
+            unsafe { libc::_exit(0) };
+        }
+        // ---- parent: collect records
+        unsafe { libc::close(fds[1]) };
+        let mut pending: Vec<u8> = Vec::new();
+        let mut buf = [0u8; 65536];
+        let mut hung = None;
+        'read: loop {
+            let limit = if HANG_SEEN.load(Ordering::SeqCst) {
+                WATCHDOG_AFTER_HANG_S
+            } else {
+                WATCHDOG_S
+            };
+            let mut pfd = libc::pollfd {
+                fd: fds[0],
+                events: libc::POLLIN,
+                revents: 0,
+            };
+            let rc = unsafe { libc::poll(&mut pfd, 1, limit * 1000) };
+            if rc < 0 {
+                if std::io::Error::last_os_error().kind() == std::io::ErrorKind::Interrupted {
+                    continue;
+                }
+                harness_fail("poll");
+            }
+            if rc == 0 {
+                hung = Some(limit);
+                break 'read;
+            }
+            let n = unsafe { libc::read(fds[0], buf.as_mut_ptr() as *mut libc::c_void, buf.len()) };
+            if n < 0 {
+                if std::io::Error::last_os_error().kind() == std::io::ErrorKind::Interrupted {
+                    continue;
+                }
+                harness_fail("read");
+            }
+            if n == 0 {
+                break 'read;
+            }
+            pending.extend_from_slice(&buf[..n as usize]);
+            while let Some(nl) = pending.iter().position(|b| *b == b'\n') {
+                let line: Vec<u8> = pending.drain(..=nl).collect();
+                let text = String::from_utf8_lossy(&line[..line.len() - 1]);
+                match decode_record(&text) {
+                    Some(obs) => results.push(obs),
+                    None => {
+                        eprintln!("HARNESS-ERROR: unreadable record from the decode child: {text}");
+                        std::process::exit(2)
+                    }
+                }
+            }
+        }
+        unsafe { libc::close(fds[0]) };
+        if hung.is_some() {
+            unsafe { libc::kill(pid, libc::SIGKILL) };
+        }
+        let mut status = 0i32;
+        loop {
+            let rc = unsafe { libc::waitpid(pid, &mut status, 0) };
+            if rc < 0 && std::io::Error::last_os_error().kind() == std::io::ErrorKind::Interrupted {
+                continue;
+            }
             break;
         }
-        {
-            let mut g = SUPERVISION.lock().unwrap_or_else(|e| e.into_inner());
-            g.finished = false;
-            g.parked = None;
-        }
-        let j = jobs.clone();
-        let r = results.clone();
-        std::thread::Builder::new()
-            .name("decode".into())
-            .stack_size(8 << 20)
-            .spawn(move || {
-                for job in j.iter().skip(start) {
-                    let obs = run_one(job);
-                    r.lock().unwrap().push(obs);
-                }
-                let mut g = SUPERVISION.lock().unwrap_or_else(|e| e.into_inner());
-                g.finished = true;
-                SUPERVISION_CV.notify_all();
-            })
-            .expect("spawn decode thread");
-        // wait for: finished, or parked by the allocator
-        let parked = {
-            let mut g = SUPERVISION.lock().unwrap_or_else(|e| e.into_inner());
-            while !g.finished && g.parked.is_none() {
-                g = SUPERVISION_CV.wait(g).unwrap_or_else(|e| e.into_inner());
-            }
-            g.parked
-        };
-        if let Some(bytes) = parked {
-            // the thread is lost inside the allocator; whatever it had recorded is in `results`
-            let mut g = results.lock().unwrap();
-            g.push(Obs {
-                outcome: Outcome::Runaway { bytes },
-                stats: AllocStats { max_request: bytes, peak_live: 0, requests: 0 },
+        if let Some(seconds) = hung {
+            HANG_SEEN.store(true, Ordering::SeqCst);
+            results.push(Obs {
+                outcome: Outcome::Hung { seconds },
+                stats: AllocStats::default(),
             });
-            PROGRESS_STAMP.store(now_s(), Ordering::SeqCst);
+            // every further case may cost another time-out: the caller gets a short result
+            // list (the hung case is its last element) and decides what to do with the rest
+            break;
+        }
+        let clean_exit = libc::WIFEXITED(status) && libc::WEXITSTATUS(status) == 0;
+        let finished_all = results.len() >= jobs.len();
+        let ended_on_runaway = matches!(
+            results.last().map(|o| &o.outcome),
+            Some(Outcome::Runaway { .. })
+        ) && results.len() > start;
+        if clean_exit && (finished_all || ended_on_runaway) {
+            continue;
+        }
+        if !finished_all {
+            // the case in flight killed the child
+            results.push(Obs {
+                outcome: Outcome::Died {
+                    how: describe_status(status),
+                },
+                stats: AllocStats::default(),
+            });
         }
     }
-    BUSY.fetch_sub(1, Ordering::SeqCst);
-    let out = results.lock().unwrap().clone();
-    out
+    results.truncate(jobs.len());
+    results
 }
